@@ -262,8 +262,11 @@ Section StepCaps.
       { destruct (r_size (fst st) =? not_written); [apply rec_write_header_log|].
         exists []. now rewrite app_nil_r. }
       destruct X as (hs & Hl & Hh).
+      set (st1 := if r_size (fst st) =? not_written then rec_write_header st (r_status (fst st)) else st) in *.
       destruct (c_flush cfg); apply pair_equal_spec in HW as [<- <-]; [auto| | |];
-        exists hs; unfold lg in *; cbn [snd fst u_tr rev tl]; rewrite Hl, <- app_assoc; repeat split; auto.
+        exists hs; unfold lg in *; cbn [snd fst u_tr rev tl];
+        (split; [etransitivity; [apply (f_equal (fun l => l ++ _)); exact Hl | rewrite <- app_assoc; reflexivity]
+                | repeat split; auto]).
     - (* Hijack *)
       destruct (rec_hijack P cfg st) as [s e] eqn:HW. apply pair_equal_spec in H as [<- <-].
       unfold rec_hijack, uw_cap in HW. destruct (c_hij cfg).
@@ -279,3 +282,123 @@ Section StepCaps.
       apply delegate_cap in HW. destruct (c_dup cfg); [exists []|]; simpl; intuition.
   Qed.
 End StepCaps.
+
+(* ---------- helpers on a response nothing has been sent on ---------- *)
+
+Lemma final_not_info code : final code = true -> (100 <=? code) && (code <=? 199) && negb (code =? 101) = false.
+Proof. rewrite final_spec. intros H. apply negb_true_iff in H. exact H. Qed.
+
+Lemma fresh_header code (v l : option bytes) :
+  final code = true ->
+  rec_write_header (r_init, mku [] v l) code = (mkr 0 code false, mku [EvHeader code] v l).
+Proof. intros H. unfold rec_write_header. simpl. rewrite (final_not_info _ H). reflexivity. Qed.
+
+Definition sent_exactly (code : Z) (v l : option bytes) (data : bytes) (st' : state) (e : err) : Prop :=
+  headers (lg (snd st')) = [code] /\ u_ct (snd st') = v /\ u_loc (snd st') = l /\
+  r_status (fst st') = code /\
+  exists k, body (lg (snd st')) = firstn k data /\ (e = ENil -> k = length data).
+
+(* a first body write on a response whose header was just sent *)
+Lemma write_after_header P code v l p st' n e :
+  io_writer_contract P ->
+  rec_write P (mkr 0 code false, mku [EvHeader code] v l) p = (st', n, e) ->
+  sent_exactly code v l p st' e.
+Proof.
+  intros C. unfold rec_write. simpl.
+  destruct (uw_write P (mku [EvHeader code] v l) p) as [[u2 n2] e2] eqn:HW.
+  intros H. apply pair_equal_spec in H as [H <-]. apply pair_equal_spec in H as [<- <-].
+  destruct (uw_write_log _ _ _ _ _ _ HW) as (Hl & Hn & Hc & Hloc). simpl in *.
+  unfold sent_exactly, lg. simpl. rewrite Hl. simpl. repeat split; auto.
+  exists n2. split; auto. intros E. eapply uw_write_contract; eauto.
+Qed.
+
+Lemma copy_after_header P code v l cs fail st' n e :
+  copy_chunks (rec_write P) (mkr 0 code false, mku [EvHeader code] v l) cs 0%nat fail = (st', n, e) ->
+  sent_exactly code v l (concat cs) st' e.
+Proof.
+  intros H.
+  destruct (copy_chunks_log (rec_write P) (fun st => lg (snd st))
+              (fun st => r_hij (fst st) = false /\ 0 <= r_size (fst st) /\ r_status (fst st) = code /\
+                         u_ct (snd st) = v /\ u_loc (snd st) = l))
+    with (cs := cs) (s := (mkr 0 code false, mku [EvHeader code] v l)) (w := 0%nat) (fail := fail)
+         (s' := st') (w' := n) (e := e) as ((G1 & G2 & G3 & G4 & G5) & bs & k & Hl & Hc & Hk & _ & He); auto.
+  - intros [r u] c [r' u'] n0 e0 (A1 & A2 & A3 & A4 & A5) HW. simpl in *.
+    unfold rec_write in HW. rewrite A1 in HW.
+    destruct (r_size r =? not_written) eqn:E; [apply eqb_nw_true in E; unfold not_written in E; lia|].
+    destruct (uw_write P u c) as [[u2 n2] e2] eqn:HU.
+    apply pair_equal_spec in HW as [HW <-]. apply pair_equal_spec in HW as [HW <-].
+    apply pair_equal_spec in HW as [<- <-].
+    destruct (uw_write_log _ _ _ _ _ _ HU) as (B1 & B2 & B3 & B4). simpl.
+    repeat split; auto; try congruence. lia.
+  - simpl. repeat split; auto. lia.
+  - unfold sent_exactly. rewrite Hl. simpl. rewrite headers_app, headers_map_body, body_app, body_map_body. simpl.
+    repeat split; auto. exists k. split; auto. intros E. apply He; auto.
+Qed.
+
+Lemma uw_read_from_log P u src u' n e :
+  uw_read_from P u src = (u', n, e) ->
+  exists bs k, lg u' = lg u ++ map EvBody bs /\ concat bs = firstn k (s_data src) /\ n = k /\
+               (e = ENil -> k = length (s_data src)) /\ u_ct u' = u_ct u /\ u_loc u' = u_loc u.
+Proof.
+  unfold uw_read_from. intros H.
+  destruct (copy_chunks_log (uw_write P) lg (fun x => u_ct x = u_ct u /\ u_loc x = u_loc u))
+    with (cs := chunks_of src) (s := u) (w := 0%nat) (fail := src_fails src) (s' := u') (w' := n) (e := e)
+    as ((G1 & G2) & bs & k & Hl & Hc & Hk & Hn & He); auto.
+  - intros s c s' n0 e0 (A1 & A2) HW. destruct (uw_write_log _ _ _ _ _ _ HW) as (B1 & B2 & B3 & B4).
+    repeat split; auto; congruence.
+  - rewrite chunks_of_concat in *. exists bs, k. repeat split; auto. intros E. apply He; auto.
+Qed.
+
+Lemma redirect_code_ok_spec code : redirect_code_ok code = negb ((code <? 300) || (308 <? code)).
+Proof.
+  unfold redirect_code_ok.
+  destruct (300 <=? code) eqn:A, (code <=? 308) eqn:B, (code <? 300) eqn:C, (308 <? code) eqn:D; try reflexivity;
+    rewrite ?Z.leb_le, ?Z.leb_gt, ?Z.ltb_lt, ?Z.ltb_ge in *; lia.
+Qed.
+
+Section Helpers.
+  Variable RF : policy -> ucfg -> state -> source -> state * nat * err.
+  Variable P : policy.
+  Variable cfg : ucfg.
+  Hypothesis contract : io_writer_contract P.
+  (* ReadFrom right after the header of a fresh response *)
+  Hypothesis RF_after_header : forall code ct src st' n e,
+    RF P cfg (mkr 0 code false, mku [EvHeader code] (Some ct) None) src = (st', n, e) ->
+    sent_exactly code (Some ct) None (s_data src) st' e.
+
+  Lemma step_helper_exact c :
+    is_helper c = true -> final (helper_code c) = true ->
+    let '(st', r) := step_with RF P cfg st_init c in
+    helper_exact c r (lg (snd st')) (u_ct (snd st')) (u_loc (snd st')) (rec_answers (fst st')).
+  Proof.
+    intros Hh Hf. destruct c; try discriminate; cbn [step_with helper_code] in *.
+    - unfold ctx_string, st_init, u_init. cbn [ct_empty snd u_ct on_u fst set_ct u_tr u_loc].
+      rewrite (fresh_header _ _ _ Hf).
+      destruct (rec_write P _ payload) as [[s n] e] eqn:HW.
+      destruct (write_after_header _ _ _ _ _ _ _ _ contract HW) as (A & B & C & D & k & E & F).
+      simpl. repeat split; auto. exists k; auto. intros X. rewrite E, (F X). apply firstn_all.
+    - unfold ctx_blob, st_init, u_init. cbn [snd u_ct on_u fst set_ct u_tr u_loc].
+      rewrite (fresh_header _ _ _ Hf).
+      destruct (rec_write P _ payload) as [[s n] e] eqn:HW.
+      destruct (write_after_header _ _ _ _ _ _ _ _ contract HW) as (A & B & C & D & k & E & F).
+      simpl. repeat split; auto. exists k; auto. intros X. rewrite E, (F X). apply firstn_all.
+    - unfold ctx_stream, st_init, u_init. cbn [snd u_ct on_u fst set_ct u_tr u_loc].
+      rewrite (fresh_header _ _ _ Hf).
+      destruct (s_wt s).
+      + destruct (copy_chunks (rec_write P) _ (whole (s_data s)) 0%nat false) as [[s1 n] e] eqn:HW.
+        destruct (copy_after_header _ _ _ _ _ _ _ _ _ HW) as (A & B & C & D & k & E & F).
+        rewrite whole_concat in *.
+        simpl. repeat split; auto. exists k; auto. intros X. rewrite E, (F X). apply firstn_all.
+      + destruct (RF P cfg _ s) as [[s1 n] e] eqn:HW.
+        destruct (RF_after_header _ _ _ _ _ _ HW) as (A & B & C & D & k & E & F).
+        simpl. repeat split; auto. exists k; auto. intros X. rewrite E, (F X). apply firstn_all.
+    - unfold ctx_redirect. rewrite redirect_code_ok_spec.
+      destruct ((code <? 300) || (308 <? code)); cbn [negb].
+      + simpl. auto.
+      + unfold st_init, u_init. cbn [snd u_ct on_u fst set_ct set_loc u_tr u_loc].
+        rewrite (fresh_header _ _ _ Hf).
+        destruct (rec_write P _ body) as [[s n] e] eqn:HW.
+        destruct (write_after_header _ _ _ _ _ _ _ _ contract HW) as (A & B & C & D & k & E & F).
+        simpl. repeat split; auto. exists k; auto.
+  Qed.
+End Helpers.
